@@ -29,7 +29,8 @@ for c in man['checks']:
                 'known_findings': len([l for l in lines if l.startswith('KNOWN-FINDING')]), 'stale': [l for l in lines if l.startswith('STALE')],
                 'summary': lines[-1] if lines else '', 'digest': cov.get('case_outcome_digest'), 'units': '%s/%s' % (cov.get('units_completed'), cov.get('units_total')),
                 'states': cov.get('states'), 'transitions': cov.get('transitions'), 'compared': cov.get('traces_validated_against_impl'), 'outcomes': cov.get('distinct_outcomes'),
-                'exhaustive': cov.get('exhaustive'), 'tier_in_evidence': ev.get('tier'), 'stderr_tail': ''}
+                'exhaustive': cov.get('exhaustive'), 'tier_in_evidence': ev.get('tier'), 'stderr_tail': '',
+                'tree': subprocess.run(['git', '-C', os.environ.get('VERIF_REPO', '/repo'), 'rev-parse', '--short', 'HEAD'], capture_output=True, text=True).stdout.strip()}
     bad += p.returncode != 0
     print('%s %-8s exit=%d wall=%6.1fs known=%d %s' % (pid, tier, p.returncode, wall, res[pid]['known_findings'], res[pid]['summary'][:150]), flush=True)
     json.dump(res, open(outp, 'w'), indent=1)
